@@ -935,9 +935,9 @@ theorem ext_onSupervise_core {s : Sys} (self fc : Cid) (targets allT : List Cid)
                 · exact chainOK_mono hch' h3.n_le p hp
             · exact h2
 
-theorem ext_onSupervise {s : Sys} (self : Cid) (chain : List (Cid × List Cid)) (hv : Valid s) (hself : self < s.n)
-    (hch : chainOK s.n chain) : Ext s (onSupervise s self chain) := by
-  unfold onSupervise
+theorem ext_onSuperviseDecide {s : Sys} (self : Cid) (chain : List (Cid × List Cid)) (hv : Valid s) (hself : self < s.n)
+    (hch : chainOK s.n chain) : Ext s (onSuperviseDecide s self chain) := by
+  unfold onSuperviseDecide
   have h0 : Ext s (if (s.ctx self).strat = 0 then s else upd s self (fun x => { x with decIdx := x.decIdx + 1 })) := by
     split
     · exact Ext.refl hv
@@ -967,6 +967,15 @@ theorem ext_onSupervise {s : Sys} (self : Cid) (chain : List (Cid × List Cid)) 
     refine ext_onSupervise_core self f _ _ _ _ _ h0 hv hself htg (fun t ht => ?_) hch'
     obtain ⟨p, hp, htp⟩ := mem_allTargets ht
     exact (hch' p hp).2 t htp
+
+theorem ext_onSupervise {s : Sys} (self : Cid) (chain : List (Cid × List Cid)) (hv : Valid s) (hself : self < s.n)
+    (hch : chainOK s.n chain) : Ext s (onSupervise s self chain) := by
+  unfold onSupervise
+  split
+  · exact ext_onSuperviseDecide self chain hv hself hch
+  · cases chain with
+    | nil => exact ext_tell _ _ _ _ hv hself (fun d hd => by cases hd; exact hself) trivial rfl
+    | cons p rest => exact ext_tell _ _ _ _ hv (hch p (by simp)).1 (fun d hd => by cases hd; exact hself) trivial rfl
 
 theorem msgIdOK_of_env {s : Sys} {self : Cid} {e : Env} (hc : CurOK s self e) : MsgIdOK s e.msg := by
   intro x d hm
